@@ -21,6 +21,10 @@ var props = []PropSpec{
 		Harnesses: []HarnessSpec{
 			{Pkg: "homescript", Func: "VerifHarness_Ops", Quick: map[string]int{"mode": 1}, Require: []string{"ran", "accepted"},
 				What: "println(L op R) for 19 infix operators x {int,float,bool,str}, operand values unconstrained, vs reference operator semantics (B.3)"},
+			{Pkg: "homescript", Func: "VerifHarness_Templates", Quick: map[string]int{"mode": 1}, Require: []string{"ran", "accepted"},
+				What: "28 catalogue programs (scoping, aliasing, for-snapshot, value of if/match/block/try, evaluation order, loops, recursion, closures, indexing, throws through frames, globals) with unconstrained host inputs, VM vs definitional reference interpreter"},
+			{Pkg: "homescript", Func: "VerifHarness_Nest", Quick: map[string]int{"mode": 1, "D": 1}, Thor: map[string]int{"mode": 1, "D": 2}, Require: []string{"ran", "accepted"},
+				What: "nesting family (see C11) on the VM vs reference interpreter"},
 		},
 	},
 	{
@@ -29,6 +33,10 @@ var props = []PropSpec{
 		Harnesses: []HarnessSpec{
 			{Pkg: "homescript", Func: "VerifHarness_Ops", Quick: map[string]int{"mode": 2}, Require: []string{"ran", "accepted"},
 				What: "println(L op R) for every analyzer-accepted (operator, type) pair, operand values unconstrained: no Go panic on VM or tree interpreter"},
+			{Pkg: "homescript", Func: "VerifHarness_Templates", Quick: map[string]int{"mode": 2}, Opts: gosym.Options{MaxSteps: 1000000, BoundIsViolation: true}, Require: []string{"ran", "accepted"},
+				What: "28 catalogue programs, unconstrained host inputs: no Go panic on either back end"},
+			{Pkg: "homescript", Func: "VerifHarness_Nest", Quick: map[string]int{"mode": 2, "D": 2}, Thor: map[string]int{"mode": 2, "D": 3}, Require: []string{"ran", "accepted"},
+				What: "nesting family: no Go panic on either back end"},
 		},
 	},
 	{
@@ -37,6 +45,10 @@ var props = []PropSpec{
 		Harnesses: []HarnessSpec{
 			{Pkg: "homescript", Func: "VerifHarness_Ops", Quick: map[string]int{"mode": 4}, Require: []string{"ran", "accepted"},
 				What: "println(L op R) operator family: VM vs tree interpreter"},
+			{Pkg: "homescript", Func: "VerifHarness_Templates", Quick: map[string]int{"mode": 4}, Opts: gosym.Options{MaxSteps: 1000000, BoundIsViolation: true}, Require: []string{"ran", "accepted"},
+				What: "28 catalogue programs: VM vs tree interpreter"},
+			{Pkg: "homescript", Func: "VerifHarness_Nest", Quick: map[string]int{"mode": 4, "D": 2}, Thor: map[string]int{"mode": 4, "D": 3}, Require: []string{"ran", "accepted"},
+				What: "nesting family: VM vs tree interpreter"},
 		},
 	},
 	{
